@@ -130,6 +130,15 @@ def c18t_cases(tier, rng):
         gid += 1
         c = apply(n, e, cb)
         yield from group(gid, c, [dict(c, rel="mon", mon=1)])
+    # code that consults the monitor can hide behind rarely taken branches (e.g. the fall-back of the balanced
+    # Brandes-Koepf layout when the averaged layout violates the spacing): mixed widths, small graphs, every positioner
+    combos2 = grid(p1=K.P1S, p2=K.P2S, p4=["bk", "bk", "sink", "nspos", "valign"], p5=["poly", "ortho"], size=["all"],
+                   pat=["het", "het2", "odd", "wide1"], ns=[1, 10])
+    small = random_inputs(rng, 1500 if tier == "quick" else 15000, 3, 8, density=1.3, loop_rate=0.02)
+    for (n, e), cb in rotate(small, combos2, 1, rng):
+        gid += 1
+        c = apply(n, e, cb)
+        yield from group(gid, c, [dict(c, rel="mon", mon=1)])
 
 
 # ---------------------------------------------------------------------------- C09
